@@ -20,6 +20,7 @@ func init() {
 		Assumptions: []string{"locks are identified by access path (no aliasing of mutexes)", "sort.Slice/sort.Search and friends invoke their callback synchronously"},
 		Run:         runC11,
 		Controls: []Control{
+			{Name: "revert-F35-shared-default-rng", File: "pkg/trait/electricpb/model_opts.go", Old: "\tWithClock(clock.Real()),\n", New: "\tWithClock(clock.Real()),\n\tWithRNG(rand.New(rand.NewSource(rand.Int63()))),\n", Expect: "R11.1"},
 			{Name: "get-without-rlock", File: "pkg/resource/value.go", Old: "\tr.mu.RLock()\n\tdefer r.mu.RUnlock()\n\treturn req.FilterClone(r.value)", New: "\treturn req.FilterClone(r.value)", Expect: "R11.1"},
 			{Name: "router-has-without-lock", File: "pkg/router/router.go", Old: "\tr.mu.RLock()\n\tdefer r.mu.RUnlock()\n\t_, exists := r.registry[name]", New: "\t_, exists := r.registry[name]", Expect: "R11.1"},
 			{Name: "collect-without-lock", File: "internal/minibus/bus.go", Old: "\tb.listenerM.Lock()\n\tdefer b.listenerM.Unlock()\n\n\tvar activeListeners", New: "\tvar activeListeners", Expect: "R11.1"},
@@ -53,6 +54,7 @@ func runC11(c *an.Ctx) {
 	}
 	reportGuarded(c, "R11.1", g, func(string) bool { return true })
 	r111rng(c)
+	r111shared(c)
 	runE2(c, "R11.2", nil)
 	r112append(c)
 	r113(c)
@@ -453,4 +455,36 @@ func lockField(path string) string {
 		return path[i+1:]
 	}
 	return path
+}
+
+// r111shared: a source of randomness created in a package initialiser (e.g. inside a default option list) is
+// shared by every resource built with the defaults, while each collection's rngMu only serialises its own use.
+func r111shared(c *an.Ctx) {
+	const rule = "R11.1"
+	n := 0
+	for _, fn := range c.Prog.FuncsIn("pkg") {
+		if fn.Name() != "init" || fn.Parent() != nil || fn.Signature.Recv() != nil {
+			continue
+		}
+		rel := an.ModRel(fn.Package().Pkg.Path())
+		if !(rel == "pkg/resource" || strings.HasPrefix(rel, "pkg/trait")) {
+			continue
+		}
+		n++
+		var bad ssa.Instruction
+		for _, f := range an.WithClosures(fn) {
+			an.Instrs(f, func(in ssa.Instruction) {
+				if an.IsCallTo(in, "math/rand.New", "math/rand/v2.New") {
+					bad = in
+				}
+			})
+		}
+		cons := rel + "|no source of randomness is created once for all resources"
+		if bad != nil {
+			c.Bad(rule, cons, bad.Pos(), "a *rand.Rand is created in a package initialiser (a package-level variable or default option list): every resource configured from it shares one unsynchronised source, so generating ids in two collections at the same time is a data race in math/rand")
+		} else {
+			c.Ok(rule, cons, fn.Pos(), "")
+		}
+	}
+	c.Count("package_initialisers", n)
 }
